@@ -357,7 +357,9 @@ def ops_common():
         A(root, 'twin', lambda c, X, fn=fn: fn(c, X.twin))
         A(root, 'small', lambda c, X, fn=fn: fn(c, X.small))
         A(root, 'array', lambda c, X, fn=fn: fn(c, np.asarray(c.values)))
-        A(root, 'rarray', lambda c, X, fn=fn: fn(np.arange(len(c)), c))
+        if name != 'matmul':  # ndarray @ container lets NumPy coerce the container itself and run its object-dtype matmul loop,
+            # which segfaults in this NumPy build when an element product raises (pure NumPy: reproduced without static_frame code on the stack)
+            A(root, 'rarray', lambda c, X, fn=fn: fn(np.arange(len(c)), c))
     for name in ('add', 'eq', 'mul', 'and_'):
         fn = getattr(op, name)
         root = '__' + name.rstrip('_') + '__'
@@ -368,7 +370,7 @@ def ops_common():
         A(root, 'bool', lambda c, X, fn=fn: fn(c, True))
         A(root, 'list', lambda c, X, fn=fn: fn(c, list(range(len(c)))))
     A('__matmul__', 'T', lambda c, X: c @ c.values.T)
-    A('__rmatmul__', 'T', lambda c, X: c.values.T @ c)
+    A('__rmatmul__', 'T', lambda c, X: c.__rmatmul__(c.values.T))
     for sym, nm in (('+', 'iadd'), ('-', 'isub'), ('*', 'imul'), ('/', 'itruediv'), ('//', 'ifloordiv'), ('%', 'imod'), ('**', 'ipow'),
                     ('&', 'iand'), ('|', 'ior'), ('^', 'ixor'), ('@', 'imatmul'), ('<<', 'ilshift'), ('>>', 'irshift')):
         A('__' + nm + '__', '', _inplace(sym))
@@ -1614,19 +1616,15 @@ def run_subject(rep, spec, thorough, only=None, only_derived=None):
 
 
 def cases(tier):
+    """one case = one subject with its full catalogue + a slice of the (cheap) caller-held-array cases"""
     subs = subjects(tier)
     ctors = list(ctor_cases(tier))
-    # spread the (cheap) ctor cases between the subjects so every shard gets both
-    per = max(1, len(ctors) // max(1, len(subs)) + 1)
+    per = len(ctors) // max(1, len(subs)) + 1
     it = iter(ctors)
     for spec in subs:
-        yield dict(kind='subject', spec=spec)
-        chunk = list(itertools.islice(it, per))
-        if chunk:
-            yield dict(kind='ctors', items=chunk)
+        yield dict(spec=spec, ctors=list(itertools.islice(it, per)))
     rest = list(it)
-    if rest:
-        yield dict(kind='ctors', items=rest)
+    assert not rest
 
 
 def run(repo, task):
@@ -1649,14 +1647,12 @@ def run(repo, task):
         old = np.seterr(all='ignore')
         try:
             for case in rep.shard(cases(tier)):
-                if case['kind'] == 'subject':
-                    run_subject(rep, case['spec'], thorough)
-                else:
-                    for cc in case['items']:
-                        try:
-                            eval_ctor(rep, cc)
-                        except Exception:
-                            rep.error(f'harness, ctor case {cc}')
+                run_subject(rep, case['spec'], thorough)
+                for cc in case['ctors']:
+                    try:
+                        eval_ctor(rep, cc)
+                    except Exception:
+                        rep.error(f'harness, ctor case {cc}')
         finally:
             np.seterr(**old)
     return rep.done()
